@@ -95,6 +95,7 @@ def gen_cases_w5(rng, tier):
             nt = math.prod(shp) > 1 and any(core.get("data", core.get("vals")))
             cases.append(Case("tfull_fac", {"shape": list(shp), "cshape": cshape, "core": core, "factors": facs,
                                             "copy": rng.random() < 0.5,
+                                            "fdt": [rng.choice([None, None, "f4", "i8", "i4", "i2"]) for _ in range(rng.randint(1, 3))],
                                             "lay": [rng.choice(LAYOUTS + ["F", "F", "F"]) for _ in range(rng.randint(1, 3))]}, nt))
     # Kruskal shapes whose cheapest split puts THREE OR MORE factor matrices on one side (skewed 4-way shapes split 1|3 and 3|1,
     # 6 modes): the Khatri-Rao chain then folds a running product that is already 3-dimensional
@@ -118,8 +119,29 @@ def gen_cases_w5(rng, tier):
             pairs = [[m, _rand_fac(rng, rng.randint(1, 3), shp[m], pcoo=0.5)] for m in modes]
             nt = any(recv.get("data", recv.get("vals")))
             cases.append(Case("ttm_list", {"shape": list(shp), "recv": recv, "pairs": pairs, "form": form,
-                                           "transpose": rng.random() < 0.3}, nt))
-    # sumtensor histories
+                                           "transpose": rng.random() < 0.3,
+                                           "fdt": [rng.choice([None, None, "f4", "i8", "i4"]) for _ in range(rng.randint(1, 2))],
+                                           "lay": [rng.choice(LAYOUTS + ["F", "F"]) for _ in range(rng.randint(1, 2))]}, nt))
+    # sumtensor histories: first every part class negated (even and odd number of modes, singleton mode), then random histories
+    for shp in [[2, 3], [3], [2, 1, 2], [2, 2, 2, 2], [1, 1]]:
+        def one(kind, sc=False):
+            if kind == "d":
+                return {"kind": "d", "data": tgen.rand_dense(rng, shp, 1.0)}
+            if kind == "s":
+                subs, vals = rand_sp(rng, shp, 0.6)
+                return {"kind": "s", "subs": subs, "vals": vals}
+            if kind == "k":
+                return {"kind": "k", "K": rand_k(rng, shp, 2)}
+            return {"kind": "t", "T": rand_t(rng, shp, sc)}
+        every = [one("d"), one("s"), one("k"), one("t"), one("t", True)]
+        cases.append(Case("sum_hist", {"shape": list(shp), "parts": every, "ops": [{"op": "neg"}], "copy": True, "bad": False}, True))
+        for p in every:
+            cases.append(Case("sum_hist", {"shape": list(shp), "parts": [p], "ops": [{"op": "neg"}, {"op": "add", "part": one("d"), "side": "r"}],
+                                           "copy": False, "bad": False}, True))
+        cases.append(Case("sum_hist", {"shape": list(shp), "parts": [one("s")], "copy": False, "bad": False,
+                                       "ops": [{"op": "add", "part": one("k"), "side": "l"}, {"op": "neg"},
+                                               {"op": "addlist", "parts": [one("t", True), one("k")], "side": "r"}, {"op": "neg"},
+                                               {"op": "copy"}, {"op": "neg"}, {"op": "pos"}]}, True))
     for _ in range(120 if big else 30):
         shp = tgen.rand_shape(rng, maxn=4, maxcells=36)
         parts = [_rand_part(rng, shp) for _k in range(rng.randint(0, 3))]
@@ -164,15 +186,19 @@ def _mk_holder(ttb, np, shape, h):
     return tgen.mk_sptensor(ttb, np, shape, h["subs"], h["vals"])
 
 
-def _mk_fac(np, f, lay=None, transpose=False):
+_FDT = {None: "float64", "f8": "float64", "f4": "float32", "i8": "int64", "i4": "int32", "i2": "int16"}
+
+
+def _mk_fac(np, f, lay=None, transpose=False, dt=None):
+    """dt: element type of the ndarray / of the coo data array (signed integer or float; the values are small integers)"""
     if f["kind"] == "d":
         d = len(f["rows"])
-        A = np.array(f["rows"], dtype=float).reshape((d, len(f["rows"][0]) if d else 0))
+        A = np.array(f["rows"], dtype=float).reshape((d, len(f["rows"][0]) if d else 0)).astype(_FDT[dt])
         return relayout(np, A.T if transpose else A, lay)
     from scipy import sparse as sps
     t = f["trip"]
     rows, cols = np.array([x[0] for x in t], dtype=int), np.array([x[1] for x in t], dtype=int)
-    vals = np.array([x[2] for x in t], dtype=float)
+    vals = np.array([x[2] for x in t], dtype=float).astype(_FDT[dt])
     if transpose:
         return sps.coo_matrix((vals, (cols, rows)), shape=(f["shape"][1], f["shape"][0]))
     return sps.coo_matrix((vals, (rows, cols)), shape=tuple(f["shape"]))
@@ -192,14 +218,16 @@ def run_w5(c):
     try:
         if c.op == "tfull_fac":
             core = _mk_holder(ttb, np, a["cshape"], a["core"])
-            fs = [_mk_fac(np, f, a["lay"][n % len(a["lay"])]) for n, f in enumerate(a["factors"])]
+            fdt = a.get("fdt") or [None]
+            fs = [_mk_fac(np, f, a["lay"][n % len(a["lay"])], dt=fdt[n % len(fdt)]) for n, f in enumerate(a["factors"])]
             T = ttb.ttensor(core, fs, copy=a["copy"])
             return {"ok": tgen.obs_dense(np, T.full()), "double": _sub(lambda: tgen.obs_dense(np, T.double())),
                     "to_tensor": _sub(lambda: tgen.obs_dense(np, T.to_tensor())), "tshape": [int(d) for d in T.shape]}
         if c.op == "ttm_list":
             X = _mk_holder(ttb, np, a["shape"], a["recv"])
             N, tr = len(a["shape"]), a["transpose"]
-            mats = [_mk_fac(np, f, None, tr) for _, f in a["pairs"]]
+            lay, fdt = a.get("lay") or [None], a.get("fdt") or [None]
+            mats = [_mk_fac(np, f, lay[n % len(lay)], tr, dt=fdt[n % len(fdt)]) for n, (_, f) in enumerate(a["pairs"])]
             modes = [m for m, _ in a["pairs"]]
             if a["form"] == "single":
                 Y = X.ttm(mats[0], modes[0], transpose=tr)
